@@ -7,6 +7,7 @@ listed under meta["also_run"]), record exit codes / VIOLATION lines, then `git -
 Results are written to seeded/<id>/result.json and summarised on stdout.  Never leaves /repo modified.
 """
 import json
+import os
 import subprocess
 import sys
 import time
@@ -20,10 +21,22 @@ def sh(cmd, **kw):
     return subprocess.run(cmd, shell=True, text=True, stdout=subprocess.PIPE, stderr=subprocess.STDOUT, **kw)
 
 
+BACKUP = f"/tmp/verif_gen_backup_{os.getpid()}"
+
+
+def backup_generated():
+    """the checks rewrite Generated/ and Cert/ for the tree they run on: keep an exact copy (tracked and untracked files)"""
+    sh(f"rm -rf {BACKUP} && mkdir -p {BACKUP} && rsync -a {V}/lean/E3nnVerif/Generated {V}/lean/E3nnVerif/Cert {BACKUP}/")
+
+
+def restore_generated():
+    if os.path.isdir(BACKUP):
+        sh(f"rsync -a --delete {BACKUP}/Generated/ {V}/lean/E3nnVerif/Generated/ && rsync -a --delete {BACKUP}/Cert/ {V}/lean/E3nnVerif/Cert/")
+
+
 def clean_repo():
     sh("git -C /repo checkout -- . && git -C /repo clean -fdq -e '*.egg-info'")
-    # the generated Lean sources were rewritten for the mutated tree: restore the committed (clean-tree) versions
-    sh(f"git -C {V} checkout -- lean/E3nnVerif/Generated lean/E3nnVerif/Cert")
+    restore_generated()
 
 
 def main():
@@ -35,6 +48,7 @@ def main():
     if not use_wt:
         assert sh("git -C /repo status --porcelain --untracked-files=no").stdout.strip() == "", "/repo has uncommitted changes"
     summary = []
+    backup_generated()
     for sid in ids:
         d = SEEDED / sid
         meta = json.loads((d / "meta.json").read_text())
@@ -48,7 +62,6 @@ def main():
                 sh(f"git -C /repo worktree remove --force {wt}")
                 sh(f"mkdir -p /tmp/mutv && git -C /repo worktree add -q --detach {wt} HEAD")
                 r = sh(f"git -C {wt} apply {d / 'patch.diff'}")
-                import os
                 env = dict(os.environ, E3NN_REPO=wt)
             else:
                 r = sh(f"git -C /repo apply {d / 'patch.diff'}")
@@ -65,7 +78,7 @@ def main():
         finally:
             if use_wt:
                 sh(f"git -C /repo worktree remove --force {wt}")
-                sh(f"git -C {V} checkout -- lean/E3nnVerif/Generated lean/E3nnVerif/Cert")
+                restore_generated()
             else:
                 clean_repo()
         res["detected_by"] = [x["check"] for x in res["runs"] if x["exit"] == 1 and x["n_violations"] > 0]
@@ -73,6 +86,7 @@ def main():
         (d / "result.json").write_text(json.dumps(res, indent=1))
         summary.append(res)
         print(sid, "->", "DETECTED by " + ",".join(res["detected_by"]) if res["detected_by"] else "MISSED", flush=True)
+    sh(f"rm -rf {BACKUP}")
     return 0
 
 
